@@ -6,6 +6,7 @@ import (
 	"io"
 	"os"
 	"strconv"
+	"strings"
 	"time"
 
 	"github.com/c2h5oh/datasize"
@@ -126,7 +127,7 @@ const phoutDelimiter = '\t'
 func appendPhout(s *Sample, dst []byte, id bool) []byte {
 	dst = appendTimestamp(s.timeStamp, dst)
 	dst = append(dst, phoutDelimiter)
-	dst = append(dst, s.tags...)
+	dst = appendTags(dst, s.tags)
 	if id {
 		dst = append(dst, '#')
 		dst = strconv.AppendInt(dst, int64(s.ID()), 10)
@@ -134,6 +135,23 @@ func appendPhout(s *Sample, dst []byte, id bool) []byte {
 	for _, v := range s.fields {
 		dst = append(dst, phoutDelimiter)
 		dst = strconv.AppendInt(dst, int64(v), 10)
+	}
+	return dst
+}
+
+// appendTags appends tags as the tag column. A tag comes from the ammo source as it is (a tab inside
+// a uri ammo tag, any character in a JSON ammo tag): the column and line delimiters of the phout
+// format are written as spaces, otherwise they would tear the line.
+func appendTags(dst []byte, tags string) []byte {
+	if !strings.ContainsAny(tags, "\t\n\r") {
+		return append(dst, tags...)
+	}
+	for i := 0; i < len(tags); i++ {
+		c := tags[i]
+		if c == phoutDelimiter || c == '\n' || c == '\r' {
+			c = ' '
+		}
+		dst = append(dst, c)
 	}
 	return dst
 }
